@@ -209,7 +209,14 @@ Proof. exact wf_opd_image_to_xp_on_sphere. Qed.
 Print Assumptions C13_wf_opd_image_to_xp_on_sphere.
 
 Theorem C13_wf_path_length_reads_only_the_ray :
-  forall (xc yc zc r opd x y z L M N : R),
-    k_wf_path_length ROps xc yc zc r opd x y z L M N = opd - k_wf_opd_image_to_xp ROps xc yc zc r x y z L M N.
+  forall (xc yc zc r opd n x y z L M N : R),
+    k_wf_path_length ROps xc yc zc r opd n x y z L M N =
+    opd - Rabs n * k_wf_opd_image_to_xp ROps xc yc zc r x y z L M N.
 Proof. exact wf_path_length_reads_only_the_ray. Qed.
 Print Assumptions C13_wf_path_length_reads_only_the_ray.
+
+Theorem C13_wf_path_length_vac_reads_only_the_ray :
+  forall (xc yc zc r opd x y z L M N : R),
+    k_wf_path_length_vac ROps xc yc zc r opd x y z L M N = opd - k_wf_opd_image_to_xp ROps xc yc zc r x y z L M N.
+Proof. exact wf_path_length_vac_reads_only_the_ray. Qed.
+Print Assumptions C13_wf_path_length_vac_reads_only_the_ray.
